@@ -28,6 +28,32 @@ Clauses -> violation keys
    mixed save words                     jit/mixed-save/accepted-but-wrong (raising = refusal)
    dense N -> 2N                        refinement/doubling-exceeds-truncation-bound    T
    absolute oracles on both modes       scheme-reference/<mode>/<form> (R), exponential/<mode>/<form> (T)
+
+Pure dephasing dimension (`pdeph=` of EvolutionSuperOperator, `PDeph=` of the propagator):
+   a second complete product  system x relaxation (none / tensor form / operator form) x
+   dephasing kind (Lorentzian, Gaussian) x rate pattern (uniform, all-distinct) x step x Nt
+   runs through the SAME clauses; <form> in the keys becomes e.g. "ten+pdeph-L".
+   The dephasing is applied by the library element-wise after every elementary step
+   (operator splitting); mc/refmodels/semigroup.DephasingGrid is that scheme in numpy.
+   * Lorentzian: time independent -> generator L - diag(g) -> every clause of the property
+     applies.  exact = expm((L-diag(g))t); the bound uses the COMPUTED one-step defect
+     ||D T_4 - expm((L-diag(g))ddt)|| (Taylor truncation + first-order splitting).
+   * Gaussian: the factor of step k depends on the absolute time t_k, i.e. the generator is
+     time DEPENDENT.  EvolutionSuperOperator supports it explicitly (own branch in calculate()
+     and calculate_next(): every interval is propagated on its own dense axis starting at
+     t_{i-1}), so what the property can claim is: U(0)=1, trace/Hermiticity, jit==all, step by
+     step == all at once, and U(t_i) applied to a state == direct propagation of that state
+     from time zero (same elementary step: rounding).  NOT claimed: the semigroup law (false
+     for a time-dependent generator: U(t_i+t_j,0) = U(t_i+t_j,t_j)U(t_j,0) != U(t_i)U(t_j)).
+     Closed form exists where diag(g) commutes with L (e.g. diagonal H with population decay
+     or site dephasing): exp(-g t^2/2) o expm(Lt) - used as absolute oracle with the plain
+     Taylor bound; in the non-commuting Gaussian sub-family the clauses that need a truncation
+     bound (exponential, other-dense, refinement doubling) are not evaluated, the rounding-
+     level clauses (scheme reference, same-dense propagation, jit==all) are.
+   * dephasing WITHOUT a relaxation tensor is part of the product; on the pinned tree the
+     propagator raises AttributeError (no attribute 'RelaxationTensor') for it in every entry
+     point, so neither side of any clause exists: counted as unsupported configuration.
+   extra key: pdeph/set_PureDephasing-differs-from-constructor
 """
 import numpy
 
@@ -88,6 +114,30 @@ GENS_EXPLICIT = ["none"] + ["lindblad-%s-%s" % (s, f) for s in ("decay", "mixed"
                             for f in ("ten", "op")]
 GENS_AGG = ["redfield-ten", "redfield-op"]
 
+# pure dephasing: kind x rate pattern.  Rates are symmetric with a zero diagonal (the only
+# matrices for which element-wise damping preserves trace and Hermiticity).  Lorentzian rates
+# in 1/fs, Gaussian "rates" in 1/fs^2 (coherence ~ exp(-g t^2/2), g=4e-4 <-> 50 fs).
+PDEPH = ["L-uniform", "L-distinct", "G-uniform", "G-distinct"]
+PKIND = {"L": "Lorentzian", "G": "Gaussian"}
+
+
+def _drates(name, d):
+    kind, pattern = name.split("-")
+    g = numpy.zeros((d, d))
+    for a in range(d):
+        for b in range(d):
+            if a == b:
+                continue
+            if pattern == "uniform":
+                g[a, b] = 0.005 if kind == "L" else 4e-4
+            elif pattern == "distinct":
+                lo, df = min(a, b), abs(a - b)
+                g[a, b] = (0.002 * (1 + df) + 0.0015 * lo if kind == "L"
+                           else 2e-4 * (1 + df) + 1e-4 * lo)
+            else:
+                raise isolation.HarnessError(name)
+    return PKIND[kind], g
+
 
 def _build_agg(spec, as_operators):
     qr = isolation.qr()
@@ -104,7 +154,25 @@ def _build_agg(spec, as_operators):
 
 
 def build(case):
-    """-> dict(ham, relt, Lmat, dim, form, coupled)   (real objects + reference generator)"""
+    """-> dict(ham, relt, Lmat, dim, form, coupled, pdeph, pkind, gamma)
+    (real objects + reference generator; pdeph=None without pure dephasing)"""
+    sysd = _build_generator(case)
+    sysd.update(pdeph=None, pkind=None, gamma=None)
+    if case.get("pdeph"):
+        from quantarhei.qm import PureDephasing
+        kind, g = _drates(case["pdeph"], sysd["dim"])
+        sysd.update(pdeph=PureDephasing(drates=g.copy(), dtype=kind), pkind=kind, gamma=g,
+                    form="%s+pdeph-%s" % (sysd["form"], kind[0]))
+    return sysd
+
+
+def _grid(sysd, step, nd, Nt):
+    if sysd["pdeph"] is None:
+        return SG.Grid(sysd["Lmat"], step, nd, Nt, ORDER)
+    return SG.DephasingGrid(sysd["Lmat"], sysd["gamma"], sysd["pkind"], step, nd, Nt, ORDER)
+
+
+def _build_generator(case):
     qr = isolation.qr()
     from quantarhei.qm import LindbladForm, SystemBathInteraction, Operator
     sysn, gen = case["sys"], case["gen"]
@@ -175,7 +243,11 @@ def _amax(a):
 
 def _eso(sysd, ta, nd, mode):
     qr = isolation.qr()
-    e = qr.qm.EvolutionSuperOperator(time=ta, ham=sysd["ham"], relt=sysd["relt"], mode=mode)
+    if sysd["pdeph"] is None:
+        e = qr.qm.EvolutionSuperOperator(time=ta, ham=sysd["ham"], relt=sysd["relt"], mode=mode)
+    else:
+        e = qr.qm.EvolutionSuperOperator(time=ta, ham=sysd["ham"], relt=sysd["relt"],
+                                         pdeph=sysd["pdeph"], mode=mode)
     e.set_dense_dt(nd)
     return e
 
@@ -209,10 +281,12 @@ def _propagate_units(sysd, ta, nref):
     """direct propagation of every matrix unit: P[i, :, :, n, m] = rho_nm(t_i)"""
     qr = isolation.qr()
     d = sysd["dim"]
-    if sysd["relt"] is None:
-        prop = qr.qm.ReducedDensityMatrixPropagator(ta, sysd["ham"])
-    else:
-        prop = qr.qm.ReducedDensityMatrixPropagator(ta, sysd["ham"], RTensor=sysd["relt"])
+    kw = {}
+    if sysd["relt"] is not None:
+        kw["RTensor"] = sysd["relt"]
+    if sysd["pdeph"] is not None:
+        kw["PDeph"] = sysd["pdeph"]
+    prop = qr.qm.ReducedDensityMatrixPropagator(ta, sysd["ham"], **kw)
     if nref != 1:
         prop.setDtRefinement(nref)
     P = numpy.zeros((ta.length, d, d, d, d), dtype=complex)
@@ -253,8 +327,9 @@ def _check_all_mode(V, sysd, ta, nd, g, U, tag):
         if not e2 <= RTOL * s:
             V.add("hermiticity/all", "%s: conj(U[a,b,c,d]) != U[b,a,d,c] at t_%d, dev %g"
                   % (tag, i, e2), {"i": i, "nd": nd, "err": e2})
-    # semigroup law for ALL index pairs i+j < Nt
-    for i in range(Nt):
+    # semigroup law for ALL index pairs i+j < Nt (time-independent generators only: with
+    # Gaussian dephasing the generator depends on time and the law does not hold)
+    for i in (range(Nt) if getattr(g, "time_independent", True) else ()):
         for j in range(i, Nt - i):
             tol = RTOL * d * d * max(1.0, _amax(U[i])) * max(1.0, _amax(U[j]))
             lhs = U[i + j]
@@ -275,6 +350,8 @@ def _check_all_mode(V, sysd, ta, nd, g, U, tag):
                 V.add("scheme-reference/all/%s" % form,
                       "%s: U(t_%d) differs from T_4(L dt/%d)^(%d) of the reference generator by %g"
                       % (tag, i, nd, nd * i, e1), {"i": i, "nd": nd, "err": e1})
+        if g.bound is None:          # no closed form (non-commuting Gaussian dephasing)
+            continue
         tol = 2 * g.bound[i] + RTOL * g.growth[i] ** 2
         e1 = _dev(U[i], g.exact_tensor(i))
         V.see("exponential", e1, tol)
@@ -431,7 +508,7 @@ def _check_propagation(V, sysd, ta, nd, grids, U, props, fine, tag):
                           "%s: U(t_%d):E_nm differs from propagate(E_nm, Nref=%d) by %g "
                           "(same polynomial, tolerance %g)" % (tag, i, nref, e, tol),
                           {"i": i, "nd": nd, "err": e})
-            else:
+            elif g.bound is not None and grids[nref].bound is not None:
                 tol = 2 * (g.bound[i] + grids[nref].bound[i]) + RTOL * g.growth[i] ** 2
                 V.see("propagate-other-dense", e, tol)
                 if not e <= tol:
@@ -499,10 +576,11 @@ def _check_jit(V, sysd, ta, nd, g, U, tag):
                     V.add("scheme-reference/jit/%s" % sysd["form"],
                           "%s: jit %s after %d steps differs from T_4^(%d) of the reference "
                           "generator by %g" % (tag, sv, k, nd * k, err), {"k": k, "nd": nd})
-            tol = 2 * g.bound[k] + RTOL * g.growth[k] ** 2
-            err = _dev(cur, g.exact_tensor(k))
-            V.see("exponential", err, tol)
-            if not err <= tol:
+            if g.bound is not None:
+                tol = 2 * g.bound[k] + RTOL * g.growth[k] ** 2
+                err = _dev(cur, g.exact_tensor(k))
+                V.see("exponential", err, tol)
+            if g.bound is not None and not err <= tol:
                 V.add("exponential/jit/%s" % sysd["form"],
                       "%s: jit %s after %d steps differs from expm(L t) by %g (bound 2x%g)"
                       % (tag, sv, k, err, g.bound[k]), {"k": k, "nd": nd})
@@ -519,7 +597,7 @@ def _check_jit(V, sysd, ta, nd, g, U, tag):
     return nstates
 
 
-def _mixed_histories(V, sysd, ta, nd, g, tag):
+def _mixed_histories(V, sysd, ta, nd, g, tag, U=None):
     """every word over {F,T} of length <= Nt-1 that is not uniform, as a prefix tree; a word
     whose last call raises is 'refused' and not extended.  Replayed on fresh objects."""
     Nt = ta.length
@@ -544,13 +622,25 @@ def _mixed_histories(V, sysd, ta, nd, g, tag):
                     continue
                 stats["completed"] += 1
                 cur = _current(e)
-                ref = g.exact_tensor(k)
-                tol = 2 * g.bound[k] + RTOL * g.growth[k] ** 2
+                if g.bound is not None:
+                    ref = g.exact_tensor(k)
+                    tol = 2 * g.bound[k] + RTOL * g.growth[k] ** 2
+                elif sysd["exact_scheme"]:       # no closed form: the scheme itself
+                    ref = g.poly_tensor(k)
+                    tol = RTOL * g.growth[k] ** 2
+                elif U is not None:              # ... or the all-at-once calculation
+                    ref = U[k]
+                    tol = RTOL * g.growth[k] ** 2
+                else:
+                    stats["completed"] -= 1
+                    stats["no_reference"] = stats.get("no_reference", 0) + 1
+                    nxt.append(word)
+                    continue
                 err = _dev(cur, ref) if cur is not None else float("inf")
                 if e.now != k or not err <= tol:
                     V.add("jit/mixed-save/accepted-but-wrong",
                           "%s: calculate_next history save=%s is accepted silently but the present "
-                          "superoperator differs from expm(L t_%d) by %g (now=%r)"
+                          "superoperator differs from the reference U(t_%d) by %g (now=%r)"
                           % (tag, "".join("T" if x else "F" for x in word), k, err, e.now),
                           {"word": [bool(x) for x in word], "nd": nd, "err": err})
                     continue                 # state is corrupt: do not extend
@@ -568,12 +658,48 @@ def eval_case(case):
     d = sysd["dim"]
     Nt, step = case["Nt"], case["step"]
     ta = qr.TimeAxis(0.0, Nt, step)
-    tag = "%s/%s Nt=%d step=%g" % (case["sys"], case["gen"], Nt, step)
+    tag = "%s/%s%s Nt=%d step=%g" % (case["sys"], case["gen"],
+                                     "+pdeph:%s" % case["pdeph"] if case.get("pdeph") else "",
+                                     Nt, step)
     dense = list(case.get("dense", DENSE))
     nds = sorted(set(dense + [2 * n for n in dense]))
-    grids = {nd: SG.Grid(sysd["Lmat"], step, nd, Nt, ORDER) for nd in nds}
-    info = {"unsupported": {}, "mixed": {}}
+    info = {"unsupported": {}, "mixed": {"refused": 0, "completed": 0, "completed_correct": 0}}
     nextra = 0
+
+    if sysd["pdeph"] is not None and sysd["relt"] is None:
+        # dephasing without a relaxation tensor: on the pinned tree EVERY entry point (direct
+        # propagation, calculate(), calculate_next()) fails in the propagator with exactly this
+        # AttributeError, so no clause has a left or a right hand side.  Only this exception,
+        # raised by all three entry points, counts as "configuration not supported"; anything
+        # else falls through to the clauses (and a crash there is reported by the engine).
+        msgs = []
+        for f in (lambda: _propagate_units(sysd, qr.TimeAxis(0.0, 2, step), 1),
+                  lambda: _eso(sysd, ta, 1, "all").calculate(),
+                  lambda: _eso(sysd, ta, 1, "jit").calculate_next()):
+            try:
+                f()
+                msgs.append(None)
+            except AttributeError as ex:
+                msgs.append(str(ex))
+        miss = "'ReducedDensityMatrixPropagator' object has no attribute 'RelaxationTensor'"
+        if all(m == miss for m in msgs):
+            k = "pure-dephasing-without-relaxation-tensor-raises-AttributeError"
+            info["unsupported"][k] = 1
+            info["worst"], info["tight"] = {}, 0
+            return {"nontrivial": False, "violations": [], "n": 3, "info": info,
+                    "outcome": [case["sys"], case["gen"], case["pdeph"], Nt, step, k]}
+        if any(m is not None for m in msgs):
+            V.add("pdeph/without-relaxation-tensor/entry-points-disagree",
+                  "%s: propagate / calculate() / calculate_next() raise %r" % (tag, msgs), None)
+            info["worst"], info["tight"] = V.worst, 0
+            return {"nontrivial": True, "violations": V.items, "n": 3, "info": info,
+                    "outcome": [case["sys"], case["gen"], case["pdeph"], Nt, step, repr(msgs)]}
+
+    grids = {nd: _grid(sysd, step, nd, Nt) for nd in nds}
+    if grids[dense[0]].bound is None:
+        # no truncation bound in this sub-family: the doubled settings would serve only the
+        # refinement clause, which is not evaluated here
+        nds = sorted(set(dense))
 
     # the generator itself must be of the kind the property speaks about
     gt = SG.generator_trace_defect(sysd["Lmat"])
@@ -605,6 +731,19 @@ def eval_case(case):
         _check_propagation(V, sysd, ta, nd, grids, U, props, fine, t2)
         if nd == dense[min(1, len(dense) - 1)]:
             _check_apply(V, sysd, ta, eso, U, t2)
+            if sysd["pdeph"] is not None:
+                # the other documented way of giving the dephasing to the object
+                e2 = qr.qm.EvolutionSuperOperator(time=ta, ham=sysd["ham"], relt=sysd["relt"],
+                                                  mode="all")
+                e2.set_dense_dt(nd)
+                e2.set_PureDephasing(sysd["pdeph"])
+                e2.calculate()
+                nextra += 1
+                if not (e2.has_PureDephasing() and numpy.array_equal(numpy.array(e2.data), U)):
+                    V.add("pdeph/set_PureDephasing-differs-from-constructor",
+                          "%s: dephasing set with set_PureDephasing() gives a superoperator "
+                          "that differs from the one with pdeph= in the constructor by %g"
+                          % (t2, _dev(numpy.array(e2.data), U)), {"nd": nd})
     # history on ONE object: calculate(), change the dense step, calculate() again - the second
     # result must be the one a fresh object gives for the new setting (rounding level)
     seq = [nd for nd in dense if Ucache.get(nd) is not None]
@@ -636,6 +775,8 @@ def eval_case(case):
         if U1 is None or U2 is None:
             continue
         g1, g2 = grids[nd], grids[2 * nd]
+        if g1.bound is None or g2.bound is None:
+            continue                     # no truncation bound (non-commuting Gaussian dephasing)
         for i in range(Nt):
             tol = 2 * (g1.bound[i] + g2.bound[i]) + RTOL * g1.growth[i] ** 2
             e = _dev(U1[i], U2[i])
@@ -648,7 +789,8 @@ def eval_case(case):
     for nd in dense:
         nextra += _check_jit(V, sysd, ta, nd, grids[nd], Ucache.get(nd), "%s dense=%d" % (tag, nd))
     st = _mixed_histories(V, sysd, ta, dense[min(1, len(dense) - 1)],
-                          grids[dense[min(1, len(dense) - 1)]], tag)
+                          grids[dense[min(1, len(dense) - 1)]], tag,
+                          Ucache.get(dense[min(1, len(dense) - 1)]))
     info["mixed"] = st
     nextra += st["refused"] + st["completed"]
 
@@ -666,7 +808,7 @@ def eval_case(case):
     Ud = Ucache.get(dense[0])
     if Ud is None:
         Ud = numpy.array([grids[dense[0]].poly_tensor(i) for i in range(Nt)])
-    digest = [case["sys"], case["gen"], Nt, step,
+    digest = [case["sys"], case["gen"]] + ([case["pdeph"]] if case.get("pdeph") else []) + [Nt, step,
               round(float(numpy.sum(numpy.abs(Ud[-1]))), 6),
               round(float(numpy.real(Ud[-1][d - 1, d - 1, d - 1, d - 1])), 6),
               sorted(info["unsupported"]), len(V.items)]
@@ -699,11 +841,31 @@ def cases(tier):
                     "fine_max": fine_max})
     out += product({"sys": aggs, "gen": GENS_AGG, "step": steps, "Nt": nts,
                     "fine_max": fine_max})
+    # ---- pure dephasing: a complete product of its own (same clauses)
+    if tier == "quick":
+        p_hams = ["d2-diag", "d2-coupled", "d3-diag", "d3-coupled"]
+        p_gens = ["none", "lindblad-decay-ten", "lindblad-decay-op", "lindblad-mixed-ten",
+                  "lindblad-mixed-op"]
+        p_aggs, p_steps, p_nts = ["dimer"], [5.0, 0.7], [4]
+        # Gaussian dephasing makes the library propagate EVERY interval with the dense step
+        # (cost ~ sum of the dense settings): the largest quick setting is 20 instead of 50
+        p_dense = [[1, 2, 5, 20]]
+    else:
+        p_hams, p_gens, p_aggs = list(HAMS), list(GENS_EXPLICIT), list(AGGS)
+        p_steps, p_nts = list(steps), [4, 6]
+        p_dense = [list(DENSE)]
+    out += product({"sys": p_hams, "gen": p_gens, "pdeph": PDEPH, "step": p_steps, "Nt": p_nts,
+                    "fine_max": fine_max, "dense": p_dense})
+    out += product({"sys": p_aggs, "gen": GENS_AGG, "pdeph": PDEPH, "step": p_steps,
+                    "Nt": p_nts, "fine_max": fine_max, "dense": p_dense})
     return out
 
 
 def run(run):
-    run.rule = ("full product system x generator x grid step x grid length; inside each point: "
+    run.rule = ("full product system x generator x grid step x grid length, and a second full "
+                "product system x relaxation (none/tensor/operator form) x pure dephasing "
+                "(Lorentzian, Gaussian) x rate pattern (uniform, distinct) x grid step x grid "
+                "length; inside each point: "
                 "dense settings {1,2,5,50} (+ their doubles), modes all/jit, every uniform "
                 "calculate_next history prefix k<=Nt-1 for save=F and save=T, the prefix tree of "
                 "mixed-save words, all index pairs i+j<Nt, all grid times, all matrix units. "
@@ -721,11 +883,29 @@ def run(run):
         "mode 'all' without a relaxation tensor raises AttributeError in calculate(): counted as "
         "unsupported configuration, jit mode of the same system is checked against the reference",
         "mixed-save calculate_next words: an exception raised by the call that switches the flag counts as refusal; silent acceptance with a wrong present superoperator is a violation",
+        "pure dephasing = element-wise factor applied after every elementary Taylor step "
+        "(operator splitting, as the library declares); Lorentzian: exp(-g ddt), generator "
+        "L-diag(g), bound from the computed one-step defect ||D T_4 - expm((L-diag(g))ddt)||; "
+        "Gaussian: exp(-g ddt^2/2 - g ddt t_k), time-dependent generator: no semigroup clause, "
+        "closed form exp(-g t^2/2) o expm(Lt) only where diag(g) commutes with L, otherwise no "
+        "truncation-bounded clause is evaluated",
+        "dephasing rates symmetric with zero diagonal (trace/Hermiticity preserving); dephasing "
+        "applied in the basis the data are in (no basis context is open)",
+        "pure dephasing without a relaxation tensor raises AttributeError (no attribute "
+        "'RelaxationTensor') in propagate(), calculate() and calculate_next() alike: counted as "
+        "unsupported configuration",
     ]
     cs = cases(run.tier)
     run.bounds = {"Nt": sorted(set(c["Nt"] for c in cs)), "steps": sorted(set(c["step"] for c in cs)),
                   "dense": DENSE, "systems": sorted(set(c["sys"] for c in cs)),
-                  "generators": GENS_EXPLICIT + GENS_AGG, "order": ORDER}
+                  "generators": GENS_EXPLICIT + GENS_AGG, "order": ORDER,
+                  "pure_dephasing": [None] + PDEPH,
+                  "pure_dephasing_product": {
+                      "dense": sorted(set(n for c in cs if c.get("pdeph") for n in c["dense"])),
+                      "Nt": sorted(set(c["Nt"] for c in cs if c.get("pdeph"))),
+                      "steps": sorted(set(c["step"] for c in cs if c.get("pdeph"))),
+                      "systems": sorted(set(c["sys"] for c in cs if c.get("pdeph"))),
+                      "relaxation": sorted(set(c["gen"] for c in cs if c.get("pdeph")))}}
     infos = run_grid(run, rotate(cs, run.seed), eval_case, cap_s=150 if run.tier == "quick" else 1500)
     worst, unsupported, tight = {}, {}, 0
     mixed = {"refused": 0, "completed": 0, "completed_correct": 0}
